@@ -37,7 +37,7 @@ def execute(case):
     props = otproject.glyph_properties(f2)
     F = {"gpos": otproject.gpos(f2), "gdef": otproject.gdef(f2)}
     tags = [{"tag": s["tag"], "script": otproject.script_of_tag(s["tag"])} for s in F["gpos"]["scripts"]]
-    return [{"tid": case["cid"], "n": len(order), "order": order, "glyphs": [{"scripts": props[n]["scripts"]} for n in order],
+    return [{"tid": case["cid"], "n": len(order), "order": order, "glyphs": [{"scripts": props[n]["scripts"], "single": props[n]["single"]} for n in order],
              "tags": tags, "declared": case["declared"], "F": F, "_fea": fea}]
 
 
